@@ -139,6 +139,8 @@ class Repo:
                         for k, v in more.items():
                             self.partially_evaluated.setdefault(k, []).extend(v)
                         apply_synonyms(self)
+            from .normalize import tuple_view_of_record_results
+            self.record_results = tuple_view_of_record_results(self)
             from .normalize import renumber
             for q in set(self.inlined) | set(self.partially_evaluated):
                 if q in self.funcs:
